@@ -26,8 +26,8 @@ CLAIMED = {
    note="Assumed: contracts of math/big, strings, regexp, fmt, bytes (contracts/extern.spec); closed world for datalog.Term/Op; regex and substring semantics uninterpreted. Set intersection and union are proved sound and complete (every common element / every element of either operand occurs in the result). Not decided: Evaluate's full postfix semantics as one statement (well-formedness, error cases, stack discipline and one-element expressions are proved; the value of a longer sequence is the composition of the proved operator rows, which is not stated as a single obligation).",
    technique=T, ref="4/C06"),
  "C07": dict(
-   text="Proof (partial): both converter directions (token <-> wire, 19 functions) are under contract row by row (term kinds and tags, operator codes, totality on well-formed content, fresh results, no writes to existing memory); the builder-level value layer (types.go: convert and fromDatalog for terms, predicates, expressions, rules, checks) likewise (each operator and term kind maps to its counterpart, strings resolve to the inserted symbol); symbol-table Insert/Str/Var/Clone/Extend/IsDisjoint/SplitOff have full functional contracts (default table below 1024, offsets, prefix preservation); Unmarshal is proved to produce a well-formed token or an error; the block builder is proved to emit only the new symbols and the facts, rules and checks it was given, with version 3. Structure is under contract too (wire relations scalarEnc/termEnc/predEnc/opEnc/exprEnc/ruleEnc/checkEnc/blockEnc): every token-to-wire converter is proved to write exactly one wire element per element of its input, in order, carrying the name, the term kind and payload, the operator code, head/body/expressions, and the block header (symbols, context, version); the wire-to-token converters for terms, predicates and facts are proved against the converse relations (scalarDec/termDec/predDec).",
-   note="Assumed: protobuf encode/decode. Not decided: the end-to-end round trip as one lemma (decode(encode(x)) == x composes the wire relations of both directions, which are proved per converter, but is not stated as a single obligation); the structural relations of the wire-to-token direction above facts (expressions, rules, checks, blocks: only well-formedness and operator rows are proved there), dates (time.Time is opaque), and dangling symbol indices (printed as a placeholder, not rejected).",
+   text="Proof (partial): both converter directions (token <-> wire, 19 functions) are under contract row by row (term kinds and tags, operator codes, totality on well-formed content, fresh results, no writes to existing memory); the builder-level value layer (types.go: convert and fromDatalog for terms, predicates, expressions, rules, checks) likewise (each operator and term kind maps to its counterpart, strings resolve to the inserted symbol); symbol-table Insert/Str/Var/Clone/Extend/IsDisjoint/SplitOff have full functional contracts (default table below 1024, offsets, prefix preservation); Unmarshal is proved to produce a well-formed token or an error; the block builder is proved to emit only the new symbols and the facts, rules and checks it was given, with version 3. Structure is under contract too (wire relations scalarEnc/termEnc/predEnc/opEnc/exprEnc/ruleEnc/checkEnc/blockEnc): every token-to-wire converter is proved to write exactly one wire element per element of its input, in order, carrying the name, the term kind and payload, the operator code, head/body/expressions, and the block header (symbols, context, version); every wire-to-token converter (term, predicate, fact, operation, expression, rule, check, block) is proved against the converse relations (scalarDec/termDec/predDec/opDec/exprDec/ruleDec/checkDec/blockDec). Round-trip lemmas over the two families of relations are proved from the definitions: scalar_round_trip (a scalar term written and read back is the same value), set_round_trip (a set is read back with the same elements in the same order), scalar_predicate_round_trip (name, arity and every scalar term of a predicate).",
+   note="Assumed: protobuf encode/decode. Not decided: the round trip above predicates as a lemma (for expressions, rules, checks and blocks decode(encode(x)) == x is the composition of the proved enc/dec relations level by level; the lemmas stop at predicates with scalar terms and at sets), the binary-operator round trip needs injectivity of the code table in both directions (each direction is proved row by row), dates (time.Time is opaque), and dangling symbol indices (printed as a placeholder, not rejected).",
    technique=T, ref="4/C07"),
  "C08": dict(
    text="Proof (partial): Append and Seal are proved to write nothing that existed before the call (strict frame: every store, map update, in-place append and callee effect is an obligation against 'modifies nothing'), SymbolTable.Clone is proved to own a fresh backing array, and the new token's envelope is proved to carry the parent's signed blocks unchanged.",
